@@ -1,0 +1,12 @@
+//go:build !verif
+
+// Package vhook provides named no-op points used by external verification
+// tooling. Without the "verif" build tag every function is empty and is
+// inlined away by the compiler.
+package vhook
+
+// At marks a named point in the code.
+func At(name string) {}
+
+// AtV marks a named point in the code and passes a value to the handler.
+func AtV(name string, v any) {}
